@@ -102,8 +102,11 @@ class PythonCryptoEndpoint(CryptoEndpoint, EndpointListener):
         Callback for when data is received on this endpoint.
         """
         source_address, datagram = packet
-        if datagram.startswith(self.prefix) and datagram[22] == CellPayload.msg_id:
-            self.process_cell(source_address, datagram)
+        if len(datagram) > 22 and datagram.startswith(self.prefix) and datagram[22] == CellPayload.msg_id:
+            try:
+                self.process_cell(source_address, datagram)
+            except Exception:
+                self.logger.exception("Dropping malformed cell from %s", source_address)
         elif self.tunnel_community:
             self.tunnel_community.on_packet(packet)
 
